@@ -274,7 +274,12 @@ def rand_pred(rng, pool, p_raise=0.15):
         entries[i] = ("raise", rng.choice([21, 22])) if r < p_raise / 2 else ("ok", rng.random() < 0.5)
     if rng.random() > p_raise * 3:
         entries = {i: r for i, r in entries.items() if r[0] == "ok"} or entries
-    t = Table(pool, entries, ("ok", False), lib.gbool)
+    # the verdict handed back to the operator: a real bool, or (half of the tables) another object with the
+    # same truthiness -- 1/0, "x"/None, [0]/"" -- as user predicates like `lambda x: x % 2` or `re.match` return
+    style = rng.choice(["bool", "bool", "int", "none", "container"])
+    reps = {"bool": (True, False), "int": (1, 0), "none": ("x", None), "container": ([0], "")}[style]
+    t = Table(pool, entries, ("ok", False), lib.gbool, post=lambda b: reps[0] if b else reps[1])
+    t.verdict_style = style
     return t
 
 
